@@ -178,12 +178,13 @@ _ALL = {
         technique="finite abstract interpretation (typestate), definite-assignment, mutation containment",
     ),
     "C14": dict(
-        want=["A8", "P2", "T3", "A3x", "P14", "P15", "P16", "P15b", "A3y"],
+        want=["A8", "P2", "T3", "A3x", "P14", "P15", "P16", "P15b", "A3y", "MG1"],
         explanation=("Decides the periphery of margins: imports on the margin path resolve in the pinned environment (A8); "
                      "margins are applied to sums and counts before the division (P2); margin aggregator table (T3); crosstab "
                      "forwards mask/margins/aggfunc (A3x)."
                      ' Also: complementary row/column level split (P14); margin rows written by assignment, not by a null-skipping writer (P15); the nested-subtotal recursion runs for every requested level (P16).'
-                     ' Margin subtotals group observed combinations only and the margin grid is filled with an integer-preserving value (P15b); crosstab hands the requested margin levels - derived from the row/column level split - to the grouping (A3y).'),
+                     ' Margin subtotals group observed combinations only and the margin grid is filled with an integer-preserving value (P15b); crosstab hands the requested margin levels - derived from the row/column level split - to the grouping (A3y).'
+                     ' The re-aggregation itself (MG1): a level\'s All rows are the per-group result grouped by exactly the other levels and aggregated with the caller\'s aggregator, nested subtotals by recursion with the same aggregator, the All label moved back to the level\'s position by the inverse permutation, unrequested levels dropped, single-key total = data.agg(agg_func).'),
         not_decided=["add_row_margin re-aggregation/re-indexing arithmetic, unstacking and column order"],
         technique="link check; path rule; table; forwarding rule",
     ),
